@@ -5,9 +5,12 @@ import (
 	"context"
 	"encoding/json"
 	"fmt"
+	"net/http"
+	"net/url"
 	"os"
 	"path/filepath"
 	"sort"
+	"strconv"
 	"strings"
 	"sync"
 	"testing"
@@ -41,12 +44,19 @@ func TestMain(m *testing.M) {
 
 // Feat is the generated registry / client configuration.
 type Feat struct {
-	TagDelete    bool  `json:"tag_delete"`            // registry implements DELETE /manifests/<tag>
-	TagPage      int   `json:"tag_page"`              // server-side cap of the tag-list page size (0 = none)
-	HeadNoDigest bool  `json:"head_no_digest"`        // manifest HEAD answers without Docker-Content-Digest
-	Cache        bool  `json:"cache"`                 // client-side manifest cache enabled
-	Delays       []int `json:"delays,omitempty"`      // request latency plan in microseconds (cyclic)
-	NoRepo404    bool  `json:"no_repo_404,omitempty"` // tags/list of a repository that was never written answers 404 NAME_UNKNOWN (and the seedless repository does not exist yet)
+	TagDelete    bool  `json:"tag_delete"`       // registry implements DELETE /manifests/<tag>
+	TagPage      int   `json:"tag_page"`         // server-side cap of the tag-list page size (0 = none)
+	HeadNoDigest bool  `json:"head_no_digest"`   // manifest HEAD answers without Docker-Content-Digest
+	Cache        bool  `json:"cache"`            // client-side manifest cache enabled
+	Delays       []int `json:"delays,omitempty"` // request latency plan in microseconds (cyclic)
+	// PageMode "tomb": the registry cuts a page from its tag directory FIRST and filters deleted tags
+	// afterwards (deleted tags leave tombstones that occupy page slots): pages come back short or
+	// EMPTY and still carry Link rel="next" while directory entries follow. Tomb lists tags that
+	// were created and deleted before the history starts; EmptyNull answers an empty page with "tags":null.
+	PageMode  string `json:"page_mode,omitempty"`
+	Tomb      []int  `json:"tomb,omitempty"`
+	EmptyNull bool   `json:"empty_null,omitempty"`
+	NoRepo404 bool   `json:"no_repo_404,omitempty"` // tags/list of a repository that was never written answers 404 NAME_UNKNOWN (and the seedless repository does not exist yet)
 }
 
 // Step is one operation of a history.
@@ -233,6 +243,16 @@ func gen(t *rapid.T) Case {
 			c.Feat.Delays = rapid.SliceOfN(rapid.SampledFrom([]int{0, 0, 30, 200}), 1, 5).Draw(t, "delays")
 		}
 		c.Feat.NoRepo404 = rapid.IntRange(0, 2).Draw(t, "no_repo_404") == 0
+		if rapid.IntRange(0, 2).Draw(t, "page_tomb") == 0 {
+			c.Feat.PageMode = "tomb"
+			c.Feat.TagPage = rapid.SampledFrom([]int{1, 1, 1, 2, 2, 3}).Draw(t, "tomb_page")
+			for i := range Tags {
+				if rapid.IntRange(0, 2).Draw(t, fmt.Sprintf("tomb%d", i)) == 0 {
+					c.Feat.Tomb = append(c.Feat.Tomb, i)
+				}
+			}
+			c.Feat.EmptyNull = rapid.IntRange(0, 3).Draw(t, "empty_null") == 0
+		}
 	}
 	// M0 and M1 (shared layers) always, plus three of the other seven
 	if rapid.Bool().Draw(t, "pool_default") {
@@ -352,6 +372,9 @@ func setup(c Case, ev *evid.Collector) (*env, error) {
 				r.Tags[Tags[se.Tag]] = pm.Digest
 			}
 		}
+		if c.Feat.PageMode == "tomb" {
+			e.tombIntercept()
+		}
 		e.base, err = ref.New(regHost + "/" + regRepo)
 		if err != nil {
 			return nil, err
@@ -363,6 +386,82 @@ func setup(c Case, ev *evid.Collector) (*env, error) {
 	e.conf = conf
 	e.rc = rcutil.New(e.m, conf)
 	return e, nil
+}
+
+// tombIntercept installs the "cut first, filter afterwards" tag listing: the page is cut
+// from the directory of every tag name that ever existed (live tags and tombstones of
+// deleted ones) by n / the page cap and "last"; deleted names are then dropped from the
+// page, and Link rel="next" is sent whenever directory entries follow the cut — so a page
+// may be short or empty and still have a successor. All of this is within the
+// distribution spec (a page may hold fewer than n results; Link decides about more).
+func (e *env) tombIntercept() {
+	dir := map[string]bool{}
+	for _, i := range e.c.Feat.Tomb {
+		if i >= 0 && i < len(Tags) {
+			dir[Tags[i]] = true
+		}
+	}
+	e.h.Intercept = func(m *rm.Model, h *rm.Host, en *rm.Entry, req *http.Request) *rm.Resp {
+		repo, ok := h.Repos[regRepo]
+		if !ok {
+			return nil
+		}
+		for t := range repo.Tags { // called before every request is applied: no name is ever missed
+			dir[t] = true
+		}
+		if en.Class != "tags-list" || en.Repo != regRepo {
+			return nil
+		}
+		names := make([]string, 0, len(dir))
+		for t := range dir {
+			names = append(names, t)
+		}
+		sort.Strings(names)
+		q := req.URL.Query()
+		n := e.c.Feat.TagPage
+		if v, err := strconv.Atoi(q.Get("n")); err == nil && v > 0 && (n <= 0 || v < n) {
+			n = v
+		}
+		if last := q.Get("last"); last != "" {
+			i := sort.SearchStrings(names, last)
+			if i < len(names) && names[i] == last {
+				i++
+			}
+			names = names[i:]
+		}
+		r := &rm.Resp{Status: 200, Header: http.Header{}, TruncateAt: -1}
+		if n > 0 && len(names) > n {
+			names = names[:n]
+			nq := url.Values{}
+			nq.Set("n", strconv.Itoa(n))
+			nq.Set("last", names[len(names)-1])
+			r.Header.Set("Link", "</v2/"+regRepo+"/tags/list?"+nq.Encode()+">; rel=\"next\"")
+			e.ntPaged = true
+		}
+		live := []string{}
+		for _, t := range names {
+			if _, ok := repo.Tags[t]; ok {
+				live = append(live, t)
+			}
+		}
+		if r.Header.Get("Link") != "" {
+			switch {
+			case len(live) == 0:
+				e.class("state:empty-page-with-next-link")
+			case len(live) < len(names):
+				e.class("state:short-page-with-next-link")
+			}
+		}
+		var body []byte
+		if len(live) == 0 && e.c.Feat.EmptyNull {
+			body = []byte(`{"name":"` + regRepo + `","tags":null}`)
+		} else {
+			body, _ = json.Marshal(map[string]any{"name": regRepo, "tags": live})
+		}
+		r.Header.Set("Content-Type", "application/json")
+		r.Body = body
+		return r
+	}
 }
 
 func (e *env) cleanup() {
@@ -1255,6 +1354,9 @@ func check(c Case, ev *evid.Collector) (viol *evid.Violation) {
 			e.class("reg:placeholder-fallback")
 		}
 		e.class(fmt.Sprintf("reg:tag-page-%d", c.Feat.TagPage))
+		if c.Feat.PageMode == "tomb" {
+			e.class("reg:paging-cut-first-filter-afterwards")
+		}
 		if c.Feat.HeadNoDigest {
 			e.class("reg:head-no-digest")
 		}
